@@ -4,8 +4,6 @@
 open Model
 open Util
 
-let out = Buffer.create 65536
-let pr fmt = Printf.bprintf out fmt
 
 (* tokens "t:hex" -> tlv list *)
 let tlvs_of_tokens (toks : string list) : tlv list =
@@ -24,8 +22,7 @@ let str_of_tlvs (l : tlv list) : string =
 
 type ctx = { mutable opidx : int; impl : (int, string list) Hashtbl.t (* opidx -> tokens after "obs idx" *) }
 
-let spec ctx name ok detail =
-  pr "spec %d %s %s %s\n" ctx.opidx (if ok then "ok" else "FAIL") name detail
+let spec ctx name ok detail = Util.spec ctx.opidx name ok detail
 
 let impl_obs ctx = Hashtbl.find_opt ctx.impl ctx.opidx
 
@@ -55,7 +52,7 @@ let run_op ctx (toks : string list) =
       let l = tlvs_of_tokens attrs in
       let l' = addttlattr (n_of_int (int_of_string t0)) (n_of_int (int_of_string t1)) (n_of_int (int_of_string a)) l in
       pr "obs %d addttl%s\n" ctx.opidx (str_of_tlvs l')
-  | op :: _ when Ops.run pr ctx.opidx (impl_obs ctx) toks -> ignore op
+  | op :: _ when Ops.run ctx.opidx (impl_obs ctx) toks -> ignore op
   | op :: _ -> pr "obs %d unknown-op %s\n" ctx.opidx op
   | [] -> ());
   ctx.opidx <- ctx.opidx + 1
@@ -107,7 +104,7 @@ let () =
         (fun l ->
           match split_ws l with
           | "op" :: toks -> run_op ctx toks
-          | kind :: rest -> Ops.line pr kind rest l
+          | kind :: rest -> Ops.line kind rest l
           | [] -> ())
         lines;
       pr "end\n";
